@@ -42,6 +42,19 @@ theorem chunking_irrelevant_partial (cfg : Cfg) (hn : 0 < cfg.recvBytes) (m : By
   · exact hclk
   · rw [flat_map_chunk, hjoin]; exact hlen
 
+/-- **C10 in its "does not depend" form**: two different ways of cutting the same message, read under two different
+clocks (each below the timeout), hand on the same thing. -/
+theorem cut_independent (cfg : Cfg) (hn : 0 < cfg.recvBytes) (m : Bytes) (hm : m ≠ [])
+    (hF : Framed cfg m) (hNE : NoEarlyFrame cfg m)
+    (cs₁ cs₂ : List Bytes) (h₁ : ∀ c ∈ cs₁, c ≠ []) (h₂ : ∀ c ∈ cs₂, c ≠ [])
+    (hj₁ : cs₁.flatten = m) (hj₂ : cs₂.flatten = m)
+    (acc₁ acc₂ : Int) (clk₁ clk₂ : List Int)
+    (hc₁ : ∀ t ∈ clk₁, t - acc₁ < cfg.timeout) (hc₂ : ∀ t ∈ clk₂, t - acc₂ < cfg.timeout)
+    (hl₁ : m.length ≤ clk₁.length) (hl₂ : m.length ≤ clk₂.length) :
+    (recvLoop cfg acc₁ clk₁ (cs₁.map .chunk) [] 0).out = (recvLoop cfg acc₂ clk₂ (cs₂.map .chunk) [] 0).out := by
+  rw [chunking_irrelevant_partial cfg hn m hm hF hNE cs₁ h₁ hj₁ acc₁ clk₁ hc₁ hl₁,
+      chunking_irrelevant_partial cfg hn m hm hF hNE cs₂ h₂ hj₂ acc₂ clk₂ hc₂ hl₂]
+
 /-- the same with the number of reads: pieces of at most `recv_bytes` bytes take exactly one read each. -/
 theorem chunking_reads (cfg : Cfg) (m : Bytes) (hm : m ≠ [])
     (hF : Framed cfg m) (hNE : NoEarlyFrame cfg m)
